@@ -1,5 +1,5 @@
 """C01 - Assembly yields exactly the Golden Gate ligation product."""
-from .. import gen, regs, asmmon
+from .. import refmodel, gen, regs, asmmon
 from . import _embedded
 
 PROP = "C01"
@@ -43,12 +43,52 @@ def cases(tier, seed):
     for name, _, _, _ in C11.triples():
         for j in range(0, 20 if tier == "quick" else 1500, 10):
             out.append({"kind": "kit-triple", "triple": name, "from": j, "count": 10, "seed": seed})
+    # plasmids that are nothing but their structure (no backbone at all), stored with the origin on the first letter of the
+    # structure or next to it, carrying features as an earlier rotation leaves them (running past the end of the record)
+    out += [{"kind": "bare", "i": i, "seed": seed, "enzyme": names[i % len(names)]} for i in range(72 if tier == "quick" else 7200)]
     return out
+
+
+def _bare(case):
+    from ..util import rc
+    rng = gen.rng_for(case["seed"], PROP, "bare", case["enzyme"], case["i"])
+    geom = refmodel.geometry(gen.enzyme(case["enzyme"]))
+    site, nn, k = geom
+    nm = rng.randint(1, min(3, gen.max_distinct_overhangs(k) - 1))
+    for _ in range(50):
+        try:
+            ov = gen.gen_overhangs(rng, k, nm + 1, forbid=(site, rc(site)))
+            v = gen.build_vector(rng, geom, o_start=ov[nm], o_end=ov[0], plen=rng.randint(0, 12), blen=rng.choice([2, 2, 3, 9]))
+            mods = [gen.build_module(rng, geom, ov[i], ov[i + 1], rng.randint(2, 20), 0) for i in range(nm)]
+            break
+        except RuntimeError:
+            continue
+    else:
+        raise RuntimeError("cannot build bare plasmids for %s" % case["enzyme"])
+    specs = []
+    for idx, b in enumerate([v] + mods):
+        n = len(b["seq"])
+        r = rng.choice([0, 0, 1, n - 1, rng.randrange(n)]) if idx else rng.randrange(n)
+        feats = []
+        for j in range(rng.randint(0, 2)):
+            a = rng.randint(max(0, n - 6), n - 1)
+            feats.append({"type": "misc_feature", "parts": [[a, n + rng.randint(1, 5), rng.choice([1, -1])]], "quals": {"uid": ["b%d.%d" % (idx, j)]}})
+        if rng.random() < 0.3:
+            feats.append({"type": "misc_feature", "parts": [[3, 9, 1, "J00194.1", None]], "quals": {"uid": ["b%d.remote" % idx]}})
+        from ..util import rot_left
+        specs.append({"id": "vec" if idx == 0 else "mod%d" % (idx - 1), "seq": rot_left(b["seq"], r), "features": feats,
+                      "built": {"rot_left": r, "frag_start_unrotated": b["frag_start"], "frag_len": b["frag_len"]}})
+    order = list(range(nm))
+    rng.shuffle(order)
+    return {"kind": "assembly-mat", "enzyme": case["enzyme"], "vector": specs[0], "modules": [specs[1 + i] for i in order],
+            "chain": [order.index(i) for i in range(nm)], "id": "bare%d" % case["i"], "name": "bare%d" % case["i"], "overhangs": ov}
 
 
 def materialise(case):
     if case["kind"] == "assembly":
         return _embedded.materialise_assembly(case)
+    if case["kind"] == "bare":
+        return _bare(case)
     return case
 
 
